@@ -35,7 +35,7 @@ ASSUMPTIONS = ["two JSON documents are the same when they parse to equal values 
                "parameter-built documents keep balance points inside [T_min_seg, T_max_seg] (documents outside that box are the C11 finding)",
                "warnings/disqualifications are compared by their json() form"]
 REQUIRED_REACH = {"roundtrip.predict_compared": 40, "roundtrip.rejson_compared": 12, "roundtrip.metadata_compared": 5, "formula.rows_compared": 12000,
-                  "formula.models": 40, "second_generation": 6, "model_object_reused": 3, "family.daily": 2, "family.billing": 1, "family.hourly": 14, "family.caltrack": 1, "baseline.calendar_month_without_meter_data": 3}
+                  "formula.models": 40, "second_generation": 6, "model_object_reused": 3, "family.daily": 2, "family.billing": 1, "family.hourly": 14, "family.caltrack": 1, "baseline.calendar_month_without_meter_data": 3, "baseline.zone_object_that_is_not_an_iana_name": 4}
 
 VIOL = []
 CUR = {}
@@ -172,6 +172,21 @@ def fitted_case(spec, keys):
             bdf = bdf.iloc[:250]                                                         # too short -> disqualification, fitted with the override
         elif fam.kind == "hourly":
             bdf = bdf.iloc[:24 * 200]
+    tzobj = None
+    if variant and variant.startswith("zone-object:"):
+        # timestamps that carry a tzinfo which is not an IANA zone name (ISO-8601 offsets parsed by pandas, pytz.FixedOffset, dateutil zones)
+        import datetime as _dt
+        kind = variant.split(":")[1]
+        if kind == "fixed-offset":
+            tzobj = _dt.timezone(_dt.timedelta(hours=-6))
+        elif kind == "pytz-fixed-offset":
+            import pytz
+            tzobj = pytz.FixedOffset(-360)
+        else:
+            import dateutil.tz
+            tzobj = dateutil.tz.gettz("America/Chicago")
+        bdf.index = bdf.index.tz_convert(tzobj)
+        I.reach("baseline.zone_object_that_is_not_an_iana_name")
     if variant == "month-without-meter-data":
         # a whole calendar month without a meter reading (fitted with the override where the family has one): month-specific parameters
         # of the stored model may be undefined (NaN) - they must come back as they were written
@@ -204,6 +219,8 @@ def fitted_case(spec, keys):
         if name == "partial":
             k = rng.choice(len(df), size=max(1, len(df) // 20), replace=False)
             df.iloc[k, df.columns.get_loc("temperature")] = np.nan
+        if tzobj is not None:
+            df.index = df.index.tz_convert(tzobj)
         sets.append((name, df))
     try:
         js = m.to_json()
@@ -283,6 +300,12 @@ def gen_cases(tier, seed):
         k += 1
     for i, f in enumerate(["daily:current", "billing", "hourly:default", "daily:legacy"] if q else ["daily:current", "billing", "hourly:default", "daily:legacy", "hourly:default:ghi", "caltrack", "daily:custom-maps", "daily:dev-nofinal"]):
         cases.append(dict(kind="fitted", family=f, tz=zones[i % len(zones)], variant=None, reused_model_object=True, n=k, timeout=3000))
+        k += 1
+    zo = [("daily:current", "fixed-offset", "Etc/GMT+6"), ("billing", "pytz-fixed-offset", "Etc/GMT+6"), ("daily:legacy", "dateutil", "America/Chicago"), ("hourly:default", "fixed-offset", "Etc/GMT+6")]
+    if not q:
+        zo += [("billing", "fixed-offset", "Etc/GMT+6"), ("daily:current", "dateutil", "America/Chicago"), ("hourly:default:ghi", "pytz-fixed-offset", "Etc/GMT+6"), ("caltrack", "fixed-offset", "Etc/GMT+6")]
+    for f, kind, z in zo:
+        cases.append(dict(kind="fitted", family=f, tz=z, variant="zone-object:" + kind, n=k, timeout=3000))
         k += 1
     for i, pr in enumerate(FT.HOURLY_ALTERNATIVES):
         cases.append(dict(kind="fitted", family="hourly:" + pr + (":ghi" if (i % 4 == 3 and not q) else ""), tz=zones[(i + 2) % len(zones)], variant=None, n=k, timeout=3000))
